@@ -325,7 +325,7 @@ def run(repo, chk):
         # a store through an unchecked index can overwrite a return address, after which `j [ra]` lands anywhere (on a bare halt
         # of the prologue, for instance): the index guards of every element access (shared with C05.G4)
         from . import c05
-        c05.run(repo, Remap(chk, {'C05.G4': lambda c: 'C03.J10' if c.startswith(('array_lookup', 'array_assignment', 'check_index')) else None}))
+        c05.run(repo, Remap(chk, {'C05.G4': lambda c: 'C03.J10' if c.startswith(('array_lookup', 'array_assignment', 'check_index', 'length guard')) else None}))
     chk.sample({'jump_site_forms': {s: sorted(f) for s, f in list(sorted(site_forms.items()))[:10]}})
     chk.sample({'stdlib_jump_roles': [f'{at.ins[i]} -> {r[0]}' for i, r in list(sorted(tf.jumps.items()))[:8]]})
     chk.not_decided = ['the VM implementation of the Turing jump', 'behaviour excluded by the property (UB)']
